@@ -80,7 +80,7 @@ def main():
                 "engine": "exponax-dst",
                 "level_claimed": {"category": "exploration", "text": c["text"], "design_ref": "DESIGN.md §4, §6"},
                 "level_note": c["note"],
-                "technique": "deterministic simulation with fault injection: seeded baton-passing scheduler over real caller threads with source-line pre-emption, seeded API histories, ambient fault injection and injected crashes; oracle = isolated fresh-interpreter reference",
+                "technique": "deterministic simulation with fault injection: seeded baton-passing scheduler over real caller threads with source-line pre-emption, seeded API histories, ambient fault injection (clock, global RNGs, gc, cache eviction, precision-session switches) and injected crashes with retry; crash points and single pre-emption points additionally enumerated over executed source lines; oracle = isolated fresh-interpreter reference; seed + minimised schedule as replay file",
             }
         )
     manifest = {
